@@ -3,6 +3,7 @@
 package ev
 
 import (
+	"bytes"
 	"encoding/json"
 	"fmt"
 	"os"
@@ -394,7 +395,9 @@ func (r *Run) Sharded(n int, body func(shard, n int)) {
 			os.Exit(2)
 		}
 		var p partial
-		if err := json.Unmarshal(bz, &p); err != nil {
+		dec := json.NewDecoder(bytes.NewReader(bz))
+		dec.UseNumber() // keep 64-bit integers of replay cases exact
+		if err := dec.Decode(&p); err != nil {
 			fmt.Fprintf(os.Stderr, "HARNESS: shard %d output unreadable: %v\n", i, err)
 			os.Exit(2)
 		}
